@@ -136,6 +136,8 @@ type FnCtx struct {
 	pendingClosed [][2]string
 	closedDecls   []string
 	cands         []string
+	reachBlock    map[string]*ssa.BasicBlock // reach term of a top-level block -> block
+	ancCache      map[*ssa.BasicBlock]map[*ssa.BasicBlock]bool
 	candBlock     map[string]*ssa.BasicBlock
 	curBlock      *ssa.BasicBlock // block being executed in the top-level frame
 	appendLens    []string
@@ -540,7 +542,7 @@ func (fc *FnCtx) closedFact(term, name, alloc string) string {
 	default:
 		return "true"
 	}
-	return fmt.Sprintf("(forall %s (! %s :pattern (%s)))", binders, body, pat)
+	return fmt.Sprintf("(forall %s (! (=> (isold cr %s) %s) :pattern (%s)))", binders, alloc, body, pat)
 }
 func heapGlobal(g *ssa.Global) string { return "G:" + g.Pkg.Pkg.Path() + "." + g.Name() }
 
@@ -677,6 +679,10 @@ func (fc *FnCtx) rd2(st *State, name, row, idx string) string {
 // closedGround: ground instance of heap closedness for one read: a reference read from heap version t was
 // allocated no later than the moment t was created
 func (fc *FnCtx) closedGround(t, name, v, key string) {
+	row := key
+	if i := strings.Index(key, "@"); i >= 0 {
+		row = key[:i]
+	}
 	vt := heapValType[name]
 	if vt == nil || reBoundVar.MatchString(key) {
 		return
@@ -697,13 +703,16 @@ func (fc *FnCtx) closedGround(t, name, v, key string) {
 		return
 	}
 	fc.closedNoted[k] = true
+	// only objects that existed when this heap version was created are covered: a later-allocated row read from
+	// an unchanged heap version holds whatever a callee's post-condition says
+	rowOld := sApp("isold", row, a)
 	switch vt.Underlying().(type) {
 	case *types.Pointer, *types.Map, *types.Chan:
-		fc.permFact(sOr(sEq(v, "0"), sApp("isold", v, a)))
+		fc.permFact(sImp(rowOld, sOr(sEq(v, "0"), sApp("isold", v, a))))
 	case *types.Slice:
-		fc.permFact(sAnd(sApp("<=", sApp("sl_arr", v), a), sApp("slwf", v)))
+		fc.permFact(sAnd(sImp(rowOld, sApp("<=", sApp("sl_arr", v), a)), sApp("slwf", v)))
 	case *types.Interface:
-		fc.permFact(sApp("<=", sApp("ipay", v), a))
+		fc.permFact(sImp(rowOld, sApp("<=", sApp("ipay", v), a)))
 	}
 }
 
@@ -858,6 +867,7 @@ type Frame struct {
 }
 
 type retSite struct {
+	blk    *ssa.BasicBlock
 	guard  string
 	st     *State
 	vals   []Val
@@ -1122,3 +1132,30 @@ func (fr *Frame) rpo() []*ssa.BasicBlock {
 }
 
 func typesNewPointer(t types.Type) types.Type { return types.NewPointer(t) }
+
+// ancestors of b in the loop-cut control-flow DAG (including b)
+func (fc *FnCtx) ancestors(b *ssa.BasicBlock) map[*ssa.BasicBlock]bool {
+	if fc.ancCache == nil {
+		fc.ancCache = map[*ssa.BasicBlock]map[*ssa.BasicBlock]bool{}
+	}
+	if a, ok := fc.ancCache[b]; ok {
+		return a
+	}
+	a := map[*ssa.BasicBlock]bool{b: true}
+	stack := []*ssa.BasicBlock{b}
+	for len(stack) > 0 {
+		x := stack[len(stack)-1]
+		stack = stack[:len(stack)-1]
+		for _, p := range x.Preds {
+			if x.Dominates(p) {
+				continue // back edge
+			}
+			if !a[p] {
+				a[p] = true
+				stack = append(stack, p)
+			}
+		}
+	}
+	fc.ancCache[b] = a
+	return a
+}
